@@ -34,7 +34,7 @@ ASSUMPTIONS = [
     "by the live-vs-model comparison (the model has value semantics) and by C05's persisted-vs-live runs",
 ]
 
-FAM = progs.family(n_tasks=(3, 8), p_join=0.7, p_join_count=0.5, p_items=0.25, p_loop=0.2, p_retry=0.35, p_late_join=0.5, p_fail=0.3,
+FAM = progs.family(p_pub_dict=0.35, p_publish=0.6, n_tasks=(3, 8), p_join=0.7, p_join_count=0.5, p_items=0.25, p_loop=0.2, p_retry=0.35, p_late_join=0.5, p_fail=0.3,
                    steps=(15, 70))
 
 
